@@ -43,7 +43,7 @@ impl Future for YieldOnce {
 
 #[derive(Clone)]
 struct Step {
-    kind: u8, // 0 sleep, 1 yield
+    kind: u8, // 0 sleep, 1 yield, 2 park (sleep_cycles(u64::MAX - d): must never come back)
     d: u64,
     emit: Option<u32>,
 }
@@ -59,6 +59,7 @@ fn run_tasks(v: &Value) -> Value {
     let log: Rc<RefCell<Vec<(usize, i64, u64, u64)>>> = Rc::new(RefCell::new(Vec::new()));
     let emits: Rc<RefCell<Vec<(usize, u32, u64)>>> = Rc::new(RefCell::new(Vec::new()));
     let done = Rc::new(RefCell::new(0usize));
+    let parked = Rc::new(RefCell::new(0usize));
     let call_no = Rc::new(RefCell::new(0u64));
     let mut driver = AsyncDriver::with_clock(clock0);
     let tasks = v.get("tasks").and_then(|t| t.as_array()).cloned().unwrap_or_default();
@@ -71,7 +72,11 @@ fn run_tasks(v: &Value) -> Value {
             .map(|a| {
                 a.iter()
                     .map(|s| Step {
-                        kind: if s.get(0).and_then(|k| k.as_str()) == Some("yield") { 1 } else { 0 },
+                        kind: match s.get(0).and_then(|k| k.as_str()) {
+                            Some("yield") => 1,
+                            Some("park") => 2,
+                            _ => 0,
+                        },
                         d: s.get(1).and_then(|x| x.as_u64()).unwrap_or(0),
                         emit: s.get(2).and_then(|x| x.as_u64()).map(|x| x as u32),
                     })
@@ -81,6 +86,7 @@ fn run_tasks(v: &Value) -> Value {
         let log = log.clone();
         let emits = emits.clone();
         let done = done.clone();
+        let parked = parked.clone();
         let call_no = call_no.clone();
         driver.spawn(async move {
             log.borrow_mut().push((tid, -1, current_cycle(), *call_no.borrow()));
@@ -91,6 +97,9 @@ fn run_tasks(v: &Value) -> Value {
             for (i, s) in steps.iter().enumerate() {
                 if s.kind == 1 {
                     YieldOnce { polled: false }.await;
+                } else if s.kind == 2 {
+                    *parked.borrow_mut() += 1;
+                    sleep_cycles(u64::MAX - s.d).await;
                 } else {
                     sleep_cycles(s.d).await;
                 }
@@ -109,7 +118,9 @@ fn run_tasks(v: &Value) -> Value {
     for t in tasks.iter() {
         if let Some(st) = t.get("steps").and_then(|s| s.as_array()) {
             for s in st {
-                max_d = max_d.max(s.get(1).and_then(|x| x.as_u64()).unwrap_or(0));
+                if s.get(0).and_then(|k| k.as_str()) != Some("park") {
+                    max_d = max_d.max(s.get(1).and_then(|x| x.as_u64()).unwrap_or(0));
+                }
             }
         }
     }
@@ -140,7 +151,7 @@ fn run_tasks(v: &Value) -> Value {
             DriverEvent::User(x) => x as i64,
         };
         results.push(json!([ev, r.cycles_executed, driver.clock(), cur]));
-        if ev == -1 && *done.borrow() == ntasks {
+        if ev == -1 && *done.borrow() + *parked.borrow() >= ntasks {
             break;
         }
         if ev == -1 && r.cycles_executed == 0 {
@@ -160,7 +171,7 @@ fn run_tasks(v: &Value) -> Value {
     let em_v: Vec<Value> = emits.borrow().iter().map(|(a, b, c)| json!([a, b, c])).collect();
     let done_n = *done.borrow();
     json!({"id": v.get("id").cloned().unwrap_or(Value::Null), "log": log_v, "emits": em_v, "results": results,
-           "done": done_n, "calls": calls, "clock_end": driver.clock(), "panic": panic, "stalled": stalled})
+           "done": done_n, "parked": *parked.borrow(), "calls": calls, "clock_end": driver.clock(), "panic": panic, "stalled": stalled})
 }
 
 fn run_cpu(v: &Value) -> Value {
